@@ -459,7 +459,7 @@ func runConc(r *hx.Run, kind string, rng *hx.Rng) string {
 }
 
 func concPart(r *hx.Run) {
-	nc, nm := 60*r.Scale, 40*r.Scale
+	nc, nm := 200*r.Scale, 120*r.Scale
 	for i := 0; i < nc+nm; i++ {
 		rng, sub := r.Rng.Fork()
 		r.Case(sub)
